@@ -36,6 +36,17 @@ MUTANTS = {
                     .commit(Some(&ctx.w))
                     .map_err(Error::EncodeMessage)?;"""),
         ('error-sign', S, "            error: -err\n", "            error: err\n"),
+        # "every well-formed request of an opcode the protocol requires an answer for produces exactly one" ([C01.<op>.replied] / [.answered])
+        ('access-error-swallowed', S, """        match self.fs.access(ctx.context(), ctx.nodeid(), mask) {
+            Ok(()) => ctx.reply_ok(None::<u8>, None),
+            Err(e) => ctx.reply_error(e),""", """        match self.fs.access(ctx.context(), ctx.nodeid(), mask) {
+            Ok(()) => ctx.reply_ok(None::<u8>, None),
+            Err(_e) => Ok(0),"""),
+        ('remap-failure-unanswered', S, """            error!("fuse: {}", e);
+            return ctx.reply_error_explicit(io::Error::from_raw_os_error(libc::EOVERFLOW));""", """            return Err(e);"""),
+        ('bmap-invalid-message-unanswered', S, """        match self.fs.bmap(ctx.context(), ctx.nodeid(), block, blocksize) {""",
+         """        if blocksize == 0 { return Err(Error::InvalidMessage(io::Error::from_raw_os_error(libc::EINVAL))); }
+        match self.fs.bmap(ctx.context(), ctx.nodeid(), block, blocksize) {"""),
     ],
     'C02': [
         ('flush-swap-fh-owner', S, ".flush(ctx.context(), ctx.nodeid(), fh.into(), lock_owner)", ".flush(ctx.context(), ctx.nodeid(), lock_owner.into(), fh)"),
